@@ -79,9 +79,12 @@ mut("c19-lost-update", "C19", "sandbox/src/alloc.rs",
     "    unsafe fn dealloc(&self, ptr: *mut u8, layout: Layout) {\n        let size = layout.size();\n        self.parent.dealloc(ptr, layout);\n        let used = self.used.load(Ordering::Acquire);\n        self.used.store(used - size, Ordering::Release);\n",
     "dealloc decrements with load+store: a lost update under a specific interleaving of two threads")
 mut("c19-check-then-add", "C19", "sandbox/src/alloc.rs",
-    "        let limit = self.limit.load(Ordering::Acquire);\n        let new_size = self.used.fetch_add(size, Ordering::Acquire) + size;\n        if new_size <= limit {\n            self.max.fetch_max(new_size, Ordering::Relaxed);\n            let result = self.parent.alloc(layout);\n            if result.is_null() {\n                self.used.fetch_sub(size, Ordering::Release);\n            }\n            result\n        } else {\n            self.used.fetch_sub(size, Ordering::Release);\n            ptr::null_mut()\n        }\n",
-    "        let limit = self.limit.load(Ordering::Acquire);\n        if self.used.load(Ordering::Acquire) + size <= limit {\n            let new_size = self.used.fetch_add(size, Ordering::Acquire) + size;\n            self.max.fetch_max(new_size, Ordering::Relaxed);\n            let result = self.parent.alloc(layout);\n            if result.is_null() {\n                self.used.fetch_sub(size, Ordering::Release);\n            }\n            result\n        } else {\n            ptr::null_mut()\n        }\n",
+    "        let new_size = self.used.fetch_add(size, Ordering::Acquire).wrapping_add(size);\n        if new_size <= limit {\n            self.max.fetch_max(new_size, Ordering::Relaxed);\n            let result = self.parent.alloc(layout);\n            if result.is_null() {\n                self.used.fetch_sub(size, Ordering::Release);\n            }\n            result\n        } else {\n            self.used.fetch_sub(size, Ordering::Release);\n            ptr::null_mut()\n        }\n",
+    "        if self.used.load(Ordering::Acquire).saturating_add(size) <= limit {\n            let new_size = self.used.fetch_add(size, Ordering::Acquire).wrapping_add(size);\n            self.max.fetch_max(new_size, Ordering::Relaxed);\n            let result = self.parent.alloc(layout);\n            if result.is_null() {\n                self.used.fetch_sub(size, Ordering::Release);\n            }\n            result\n        } else {\n            ptr::null_mut()\n        }\n",
     "alloc checks the limit before charging: two threads can both pass the check (needs a schedule)")
+mut("c19-revert-fix-2", "C19", "sandbox/src/alloc.rs",
+    None, None,
+    "revert the second fix: requests that can never fit are charged before they are refused, two of them in flight wrap the counter (needs three threads and a schedule)")
 mut("c19-zeroed-no-peak", "C19", "sandbox/src/alloc.rs",
     "            self.max.fetch_max(new_size, Ordering::Relaxed);\n            let result = self.parent.alloc_zeroed(layout);\n",
     "            let result = self.parent.alloc_zeroed(layout);\n",
@@ -252,11 +255,23 @@ def _(src):
     s = s.replace("        .map_err(|_| ErrorResponse::Panic(panic_message.lock().unwrap().clone()));\n\n        let memory_used = alloc.get_max();\n", "        .map_err(|_| ErrorResponse::Panic(panic_message.lock().unwrap().clone()));\n\n        alloc.reset_max();\n        let memory_used = alloc.get_max();\n")
     return {"sandbox/src/child.rs": s}
 
+@special("c19-revert-fix-2")
+def _(src):
+    s = src("sandbox/src/alloc.rs")
+    import re
+    s, n = re.subn(r"        // A request that can never fit is refused before it is charged: two\n        // such requests in flight at once would wrap the counter around and\n        // let a third one through\.\n        if (?:new_)?size > limit \{\n            return ptr::null_mut\(\);\n        \}\n", "", s)
+    assert n == 3, n
+    return {"sandbox/src/alloc.rs": s}
+
 @special("c19-realloc-charges-delta-only")
 def _(src):
     s = src("sandbox/src/alloc.rs")
-    old = s[s.index("        let limit = self.limit.load(Ordering::Acquire);\n        let new_used = self.used.fetch_add(new_size"):s.index("        } else {\n            self.used.fetch_sub(new_size, Ordering::Release);\n            ptr::null_mut()\n        }\n    }\n}")]
+    a = s.index("    unsafe fn realloc(")
+    old = s[s.index("        let limit = self.limit.load(Ordering::Acquire);\n", a):s.index("        } else {\n            self.used.fetch_sub(new_size, Ordering::Release);\n            ptr::null_mut()\n        }\n    }\n}")]
     new = '''        let limit = self.limit.load(Ordering::Acquire);
+        if new_size > limit {
+            return ptr::null_mut();
+        }
         if new_size <= old_size {
             let result = self.parent.realloc(ptr, old_layout, realloc_size);
             if !result.is_null() {
@@ -265,7 +280,7 @@ def _(src):
             return result;
         }
         let grow = new_size - old_size;
-        let new_used = self.used.fetch_add(grow, Ordering::Acquire) + grow;
+        let new_used = self.used.fetch_add(grow, Ordering::Acquire).wrapping_add(grow);
         if new_used <= limit {
             self.max.fetch_max(new_used, Ordering::Relaxed);
             let result = self.parent.realloc(ptr, old_layout, realloc_size);
